@@ -6,4 +6,22 @@ CHECKS = {
         "note": "datetime/timedelta modelled as exact integer microseconds (naive, TZ=UTC); 2**n uninterpreted with exact values up to 64 + monotonicity/doubling axioms; retry numbers/exponents bounded by 1e5; cron excluded (croniter absent)",
     },
 }
+CHECKS["C04"] = {
+    "engine": "symx+vloop",
+    "technique": "symbolic execution (z3) of one real _Processor.process + in-memory requeue/consume step from an arbitrary retry state (inductive over the chain), of the Message retry API, and of a bounded Worker.run() chain on a virtual-time loop",
+    "text": "C04: already_tried/max_amount/back-off/clock are unbounded symbolic integers, so one step covers every position of every retry chain; the chain harness is the reachability complement.",
+    "note": "in-memory broker; message state constructed directly in the step harness; Redis/RabbitMQ delivery times are covered under C05; cron excluded",
+}
+CHECKS["C06"] = {
+    "engine": "symx+vloop",
+    "technique": "symbolic execution (z3) of report_to_broker/_prepare_reschedule/compute_next_execution_time from an arbitrary recurring-message state plus a 3-4 iteration chain from a fresh Job with symbolic finish instants",
+    "text": "C06: period, time base, previous slot, finish instant and retry state are symbolic; the successor's count, counter, TTL base and slot arithmetic are asserted for all of them.",
+    "note": "in-memory broker, pinned symbolic clock; first-slot index j*period is nonlinear integer arithmetic (z3 decides it here; unknown would be reported as inconclusive); cron excluded",
+}
+CHECKS["C12"] = {
+    "engine": "symx+vloop",
+    "technique": "symbolic execution (z3) of the consumers' expiry decision with symbolic timestamp, ttl, due time and delivery instant (including exactly at expiry), after retry and after reschedule",
+    "text": "C12: handed-over => not expired, withheld => expired and retrievable from the dead category, for all instants.",
+    "note": "in-memory consumer in this entry; Redis/RabbitMQ consumers use fake servers (see evidence); expiry evaluated at the consumer's look-up instant",
+}
 NOT_APPLICABLE = {}
